@@ -1080,6 +1080,10 @@ impl<W: Write + io::Seek> GenericZipWriter<W> {
     fn get_plain(&mut self) -> &mut W {
         match *self {
             GenericZipWriter::Storer(MaybeEncrypted::Unencrypted(ref mut w)) => w,
+            // Extra data of an encrypted entry is written while the encrypting wrapper is already in
+            // place; it belongs to the (unencrypted) header, so it goes to the underlying writer. The
+            // encrypted payload is buffered in the wrapper and only written when the file is finished.
+            GenericZipWriter::Storer(MaybeEncrypted::Encrypted(ref mut w)) => &mut w.writer,
             _ => panic!("Should have switched to stored and unencrypted beforehand"),
         }
     }
